@@ -228,8 +228,10 @@ class Builder:
         self.next_mark = 1
         self.pins = [p for p in range(2, 13)] + [p for p in range(22, 54)]
         rng.shuffle(self.pins)
+        self.pins = [p for p in range(99, 59, -1)] + self.pins      # reserve: popped only when the board pins are used up
         self.apins = [14, 15, 16, 17, 18, 19]
         rng.shuffle(self.apins)
+        self.apins = [21, 20] + self.apins
         self.used_names = set()
         self.marks = {}          # id -> form
         self.devs = {}           # name -> (kind, pins, where)
@@ -1331,7 +1333,16 @@ def run(ctx: C.Ctx):
     n_prog = 600 if thorough else 60
     stats = {"verdicts": {}, "ir_nodes": 0, "sketches": 0, "not_compiled": 0, "trace_events": 0, "c_undef": 0,
              "monitor_runs": 0, "in_guard_placement": 0, "in_guard_python": 0, "outside_guard_python": 0, "py_exc": 0}
-    progs = [gen_program(rng, CLASSES[i % len(CLASSES)]) for i in range(n_prog)]
+    def gen(cls, force=None):
+        # a script that would need more pins than the board has is drawn again (same seeded stream)
+        for _ in range(20):
+            try:
+                return gen_program(rng, cls, force=force)
+            except IndexError:
+                continue
+        return gen_program(rng, "plain")
+
+    progs = [gen(CLASSES[i % len(CLASSES)]) for i in range(n_prog)]
     # exhaustive over (kind, shape, same/different pins) for a re-bound name of one kind; cross-kind pairs sampled
     forced = []
     for k in HOISTED:
@@ -1351,7 +1362,7 @@ def run(ctx: C.Ctx):
         pairs = rng.sample([(a, c) for a in HOISTED for c in HOISTED if a != c and {a, c} != {"Servo", "Pot"}], 10)
     for a, c in pairs:
         forced.append({"kinds": [a, c], "shape": rng.choice(["pre_loop", "pre_pre", "loop_loop"]), "pins": "rand", "use": True})
-    progs += [gen_program(rng, "rebind", force=f) for f in forced]
+    progs += [gen("rebind", force=f) for f in forced]
     cls_count = {}
     for p in progs:
         cls_count[p["cls"]] = cls_count.get(p["cls"], 0) + 1
